@@ -7,7 +7,7 @@ Import ListNotations.
 Local Open Scope R_scope.
 
 
-(* convertSecondPiolaKirchhoffStressDerivativeToFirstPiolaKirchoffStressDerivative(dS/dE, F, sigma(F)) is the Jacobian of F |-> P(F) = F.S(F), S(F) = S0 + X.E_GL(F), through the conversions of /repo (det F <> 0) -- 3D *)
+(* convertSecondPiolaKirchhoffStressDerivativeToFirstPiolaKirchoffStressDerivative(dS/dE, F0, s0) is the Jacobian at F0 of F |-> F.S(F), S(F) = S(s0, F0) + X.(E_GL(F) - E_GL(F0)), S(s0, F0) = convertCauchyStressToSecondPiolaKirchhoffStress(s0, F0) (det F0 <> 0) -- 3D *)
 Theorem C06_pk1_from_pk2_3D : pk1_from_pk2_stmt3.
 Proof. exact pk1_from_pk2_ok3. Qed.
 Print Assumptions C06_pk1_from_pk2_3D.
